@@ -4,7 +4,7 @@ import ast
 
 from .. import bits as B_
 from .. import interval as I_
-from ..astutil import norm_nc, aug_form, dotted, effective, method_call
+from ..astutil import is_noise, norm_nc, aug_form, dotted, effective, method_call
 from ..cfg import canon_test, cfg_of, fact_key, norm, walk_own
 from ..consteval import Scope, fold_in
 from ..flow import one_shot_rules
@@ -482,7 +482,7 @@ def trajectory_rules(ctx, rule='R4'):
                 norm(s.body[0].value) == "struct.pack('<h', %s)" % s.target.id:
             it_ = norm(s.iter)
             seq.append('self._pack_element(%s)' % env_.get(it_, it_))
-        elif isinstance(s, ast.Expr) and isinstance(s.value, ast.Call):
+        elif isinstance(s, ast.Expr) and isinstance(s.value, ast.Call) and not is_noise(s):
             seq.append('<call %s>' % norm(s.value.func))
     want = ["struct.pack('<BH', element_types, duration_ms)", 'self._pack_element(self._encode_spatial_element(self.x))', 'self._pack_element(self._encode_spatial_element(self.y))',
             'self._pack_element(self._encode_spatial_element(self.z))', 'self._pack_element(self._encode_yaw_element(self.yaw))']
